@@ -72,7 +72,9 @@ pub fn module(r: &mut Rng, allow_unstable: bool) -> (Vec<u8>, AInfo) {
     info.n_tables = tables.len(); info.n_mems = mems.len(); info.n_globals = globals.len();
     // exports
     let mut es = we::ExportSection::new(); let mut n_e = 0;
-    for k in 0..funcs.len() { if r.chance(1, 2) { es.export(&format!("f{}", k), we::ExportKind::Func, k as u32); n_e += 1; } }
+    for k in 0..funcs.len() { if r.chance(1, 2) { es.export(&format!("f{}", k), we::ExportKind::Func, k as u32); n_e += 1;
+        // the same function under a second (and third) name
+        if r.chance(1, 4) { es.export(&format!("f{}again", k), we::ExportKind::Func, k as u32); n_e += 1; if r.chance(1, 3) { es.export(&format!("f{}thrice", k), we::ExportKind::Func, k as u32); n_e += 1; } } } }
     for k in 0..tables.len() { if r.chance(1, 2) { es.export(&format!("t{}", k), we::ExportKind::Table, k as u32); n_e += 1; } }
     for k in 0..mems.len() { if r.chance(1, 2) { es.export(&format!("m{}", k), we::ExportKind::Memory, k as u32); n_e += 1; } }
     for k in 0..globals.len() { if r.chance(1, 2) { es.export(&format!("g{}", k), we::ExportKind::Global, k as u32); n_e += 1; } }
